@@ -55,7 +55,10 @@ def gen_case(rnd):
     evs = [["d", c.hex()] for c in gen_stream(rnd)]
     extra = []
     for _ in range(rnd.randint(0, 5)):
-        k = rnd.choice(["t", "l", "ma", "ma", "mr", "mn", "md", "ha", "ha", "hr", "ua", "ua", "ur", "d"])
+        k = rnd.choice(["t", "l", "ma", "ma", "mr", "mn", "md", "ha", "ha", "hr", "ua", "ua", "ur", "d", "wall"])
+        if k == "wall":
+            extra.append(["wall", rnd.choice([-86400, -3600, -45, 45, 3600, 86400])])
+            continue
         if k == "md":
             extra.append(["md", rnd.choice(MW_LINES)])
         elif k in ("ha", "ua"):
